@@ -161,6 +161,11 @@ def short_read_case(args) -> dict:
         except FileNotFoundError:
             seams["bypassed"] = True
             return None
+        except (OSError, AttributeError, TypeError, ValueError):
+            # the code under test wants more of a file object than the seam
+            # models (fileno, mmap, ...): short reads cannot be injected
+            seams["bypassed"] = True
+            return None
         finally:
             del utils.open
 
